@@ -219,8 +219,13 @@ func Sockaddr(t *rapid.T) (kenc.Rec, map[string]string) {
 		copy(pad[:], rapid.SliceOfN(rapid.Byte(), 8, 8).Draw(t, "pad"))
 		port := rapid.OneOf(rapid.Uint16(), rapid.SampledFrom([]uint16{0, 1, 22, 80, 255, 256, 32767, 32768, 65535})).Draw(t, "port")
 		b = kenc.SockaddrInet(ip, port, pad)
-		if rapid.IntRange(0, 3).Draw(t, "ip4tail") == 0 {
+		switch rapid.IntRange(0, 5).Draw(t, "ip4tail") {
+		case 0:
 			b = append(b, rapid.SliceOfN(rapid.Byte(), 1, 112).Draw(t, "ip4garbage")...) // a caller's larger buffer (sockaddr_storage)
+		case 1:
+			// the record carries as many bytes as the caller passed (also for a call that fails because of that):
+			// family, port and address are complete from 8 bytes on, sin_zero may be cut anywhere
+			b = b[:rapid.SampledFrom([]int{8, 8, 9, 12, 15}).Draw(t, "ip4cut")]
 		}
 		want["family"], want["addr"], want["port"] = "ipv4", fmt.Sprintf("%d.%d.%d.%d", ip[0], ip[1], ip[2], ip[3]), strconv.Itoa(int(port))
 	case 1:
